@@ -151,6 +151,24 @@ PROPS.update({
                       "(would need a history invariant over process_pdu calls), configuration assumption segment size >= 2 x FSS.",
         "level_note": VERUS_NOTE,
     },
+    "C10": {
+        "title": "Cancel ends both sides and never leaves a partial file",
+        "verus": [("send", ["O-C10-"]), ("recv", ["O-C10-"])],
+        "level": "proof",
+        "technique": "deductive verification (Verus/Z3) of contracts on cancel, the peer-cancel reactions of process_pdu, and a monotone sub-state frame on every receiver function",
+        "design_ref": "DESIGN.md 4/C10",
+        "level_text": "Partial, proof of the single-entity halves. SENDER: cancel() leaves the Cancelled sub-state with condition CancelReceived and an armed EOF carrying that condition and "
+                      "this entity as fault location; a Finished PDU (acknowledged mode), e.g. the receiver's cancel, is taken over - condition, delivery code, file status - and the "
+                      "ACK(Finished) armed; in the Cancelled sub-state a state change by handle_timeout can only be termination (abandon at the limits). RECEIVER: cancel() leaves the "
+                      "Cancelled sub-state with condition CancelReceived, in acknowledged mode with a Finished PDU armed carrying it, in unacknowledged mode terminated; an EOF with "
+                      "a condition other than NoError (the sender's cancel) makes the receiver take that condition and leave the data-reception sub-state. NO PARTIAL FILE: the "
+                      "destination name is written by finalize_file only, whose precondition (checked at its only call site, in the verified finalize_receive) is the "
+                      "data-reception sub-state, and every function of the receiver unit proves `recv_state != ReceiveData ==> stays != ReceiveData`: after a cancel the destination "
+                      "is never written; it exists only if finalisation had already run (C04: with everything in hand in acknowledged mode). NOT decided: the handshake across the "
+                      "two entities and the link (schedules, losses), 'within the configured limits' as a bound (C17/C03 give the per-entity parts), the staging file being a "
+                      "system temporary file (by inspection of open_tempfile).",
+        "level_note": VERUS_NOTE,
+    },
     "C12": {
         "title": "Filestore operations cannot reach outside the filestore root",
         "verus": [],
@@ -314,6 +332,5 @@ PROPS.update({
 NOT_APPLICABLE = {
     "C01": "end-to-end equality of delivered and source file composes two entities, the link and two filesystems over a whole history; per-function contracts give only its lemmas (proved under C09, C14, C07); no contract within reach of Verus/Kani expresses the composition",
     "C02": "liveness of a two-party protocol under fault schedules; Verus and Kani prove safety of one call, not eventual completion",
-    "C10": "cancel handshakes at both entities under every interleaving and loss pattern: schedules and a peer; the single-entity fragments live in process_pdu (async/iterator-heavy, outside the verifiers' subset)",
     "C11": "isolation of concurrent tokio tasks and routing inside async fn forward_pdu: Kani has no async/thread support, Verus has no model of tokio channels; nothing here is a function contract",
 }
